@@ -1,16 +1,19 @@
 import Prom.Drv.Hist
 import Prom.Drv.Desc
+import Prom.Drv.Vec
 /- Line-protocol driver: one request per line on stdin, one result per line on stdout. -/
 open Prom Prom.Drv
 
 structure DState where
   dummy : Nat := 0
+  vec : VecSt := {}
 
 def step (st : DState) (line : String) : DState × String :=
   match line.trimAscii.toString.splitOn " " with
   | ["case"] => ({}, "case")
   | "hist" :: args => (st, histHandle args)
   | "desc" :: args => (st, descHandle args)
+  | "vec" :: args => let (v, o) := vecHandle st.vec args; ({ st with vec := v }, o)
   | _ => (st, "bad-op")
 
 partial def loop (h : IO.FS.Stream) (out : IO.FS.Stream) (st : DState) : IO Unit := do
